@@ -75,6 +75,8 @@ _Bool vf_canary;            /* always 0: clauses `X || vf_canary` must FAIL when
 #define IN_BEGIN(in) ((in)->_b0.m_begin)
 #define IT(in) ((in)->_b0.m_current)
 #define CUR(in) ((in)->_b0.m_current.data)
+/* assigns targets are listed field by field: havocking the struct as a whole makes CBMC lose the points-to set of .data */
+#define IT_FIELDS(in) (in)->_b0.m_current, (in)->_b0.m_current.data, (in)->_b0.m_current.byte, (in)->_b0.m_current.line, (in)->_b0.m_current.column
 #define CNT_OK(in) ((in)->_b0.m_current.line>=1 && (in)->_b0.m_current.column>=1 \\
    && (in)->_b0.m_current.byte < ((size_t)1<<62) && (in)->_b0.m_current.line < ((size_t)1<<62) && (in)->_b0.m_current.column < ((size_t)1<<62))
 #define CNT_POS(in) ((in)->_b0.m_current.line>=1 && (in)->_b0.m_current.column>=1)
@@ -93,6 +95,7 @@ _Bool vf_canary;            /* always 0: clauses `X || vf_canary` must FAIL when
 #define IN_BEGIN(in) ((in)->_b0.m_begin.data)
 #define IT(in) ((in)->_b0.m_current)
 #define CUR(in) ((in)->_b0.m_current)
+#define IT_FIELDS(in) (in)->_b0.m_current
 #define CNT_OK(in) 1
 #define CNT_POS(in) 1
 #define ITER_UNCHANGED(in) (CUR(in)==OLD(CUR(in)))
@@ -151,7 +154,7 @@ def rc_leaf(tracking, eol='lf_crlf', look=False, progress=False, pos=True, extra
     """RC schema for a one-argument leaf `bool X::match(In& in)`"""
     c = Contract(
         R('VALID_PRE(%s)' % param),
-        A('IT(%s)' % param) if assigns else None,
+        A('IT_FIELDS(%s)' % param) if assigns else None,
         E('VALID_POST(%s)' % param, 'RC-VALID', ('C02', 'C03')),
         E('MONO(%s)' % param, 'RC-MONO', ('C02',)),
         E('!RET ==> ITER_UNCHANGED(%s)' % param, 'RC-REWIND', ('C02',)),
@@ -233,7 +236,7 @@ def rule_stub(spec, param='in'):
         i, a, m = ps
         s = spec.get(i)
         if s is None:
-            return Contract(R('0', 'stub-unexpected-subrule', ('C01',)), A('IT(%s)' % param))
+            return Contract(R('0', 'stub-unexpected-subrule', ('C01',)), A('IT_FIELDS(%s)' % param))
         pre = ['VALID_STUB(%s)' % param, 'EXC_OK', 'g_turn == %d' % i, 'OFF(CUR(%s)) == g_pos' % param, 'g_done == 0']
         c = Contract()
         c.add(R(' && '.join(pre), 'stub-order-and-position', s.get('props_order', ('C01', 'C09'))))
@@ -245,7 +248,7 @@ def rule_stub(spec, param='in'):
             c.add(R('AT_ENTRY(%s)' % param, 'stub-at-entry-iterator', ('C01', 'C02')))
         for extra in s.get('requires', []):
             c.add(extra)
-        c.add(A('IT(%s), g_turn, g_pos, g_done, g_iter, g_called[%d], g_ok[%d], g_len[%d], g_ncalls[%d], vf_exc, g_exc_obj, g_exc_type' % (param, i, i, i, i)))
+        c.add(A('IT_FIELDS(%s), g_turn, g_pos, g_done, g_iter, g_called[%d], g_ok[%d], g_len[%d], g_ncalls[%d], vf_exc, g_exc_obj, g_exc_type' % (param, i, i, i, i)))
         c.add(E('BOOL01(RET) && BOOL01(g_ok[%d]) && BOOL01(vf_exc.pending) && BOOL01(g_done)' % i, 'stub'))
         c.add(E('PTRS_OK(%s) && CNT_POS(%s) && IN_END(%s)==OLD(IN_END(%s)) && IN_BEGIN(%s)==OLD(IN_BEGIN(%s))' % ((param,) * 6), 'stub'))
         c.add(E('MONO(%s)' % param, 'stub'))
@@ -276,7 +279,7 @@ def comb_requires(param='in'):
 
 
 def comb_assigns(param='in'):
-    return A('IT(%s), g_turn, g_pos, g_done, g_iter, g_called, g_ok, g_len, g_ncalls, vf_exc, g_exc_obj, g_exc_type' % param)
+    return A('IT_FIELDS(%s), g_turn, g_pos, g_done, g_iter, g_called, g_ok, g_len, g_ncalls, vf_exc, g_exc_obj, g_exc_type' % param)
 
 
 def comb_common(m, param='in', props_rewind=('C02',), exc_props=('C05',)):
